@@ -120,3 +120,93 @@ func groundInternalKinds(e *Engine, prop string) []*Obligation {
 }
 
 func init() { groundChecks["internal-kinds"] = groundInternalKinds }
+
+// groundOracleABI (C11): the ABI tuples used to encode an oracle result for signing list the result's fields
+// in the documented positional order (consumers decode by position), every component names an existing field
+// of types.Result (go-ethereum packs by field name) and its ABI type matches the field's Go type.
+func groundOracleABI(e *Engine, prop string) []*Obligation {
+	p := e.pkgs[modPath+"/x/oracle/types"]
+	if p == nil {
+		return []*Obligation{groundObl(prop, "oracle-abi-layout", "x/oracle/types loaded", false, "package not loaded")}
+	}
+	want := map[string][][2]string{
+		"fullResult": {{"ClientID", "string"}, {"OracleScriptID", "uint64"}, {"Calldata", "bytes"}, {"AskCount", "uint64"}, {"MinCount", "uint64"}, {"RequestID", "uint64"}, {"AnsCount", "uint64"}, {"RequestTime", "int64"}, {"ResolveTime", "int64"}, {"ResolveStatus", "int32"}, {"Result", "bytes"}},
+		"partialResult": {{"Calldata", "bytes"}, {"OracleScriptID", "uint64"}, {"RequestID", "uint64"}, {"MinCount", "uint64"}, {"ResolveTime", "int64"}, {"ResolveStatus", "int32"}, {"Result", "bytes"}},
+	}
+	got := map[string][][2]string{}
+	for _, f := range p.Syntax {
+		ast.Inspect(f, func(n ast.Node) bool {
+			vs, ok := n.(*ast.ValueSpec)
+			if !ok || len(vs.Names) == 0 || len(vs.Values) == 0 {
+				return true
+			}
+			name := vs.Names[0].Name
+			if _, w := want[name]; !w {
+				return true
+			}
+			ast.Inspect(vs.Values[0], func(m ast.Node) bool {
+				cl, ok := m.(*ast.CompositeLit)
+				if !ok || len(cl.Elts) != 2 {
+					return true
+				}
+				var nm, ty string
+				for _, el := range cl.Elts {
+					kv, ok := el.(*ast.KeyValueExpr)
+					if !ok {
+						return true
+					}
+					k, _ := kv.Key.(*ast.Ident)
+					tv := p.TypesInfo.Types[kv.Value]
+					if k == nil || tv.Value == nil || tv.Value.Kind() != constant.String {
+						return true
+					}
+					switch k.Name {
+					case "Name":
+						nm = constant.StringVal(tv.Value)
+					case "Type":
+						ty = constant.StringVal(tv.Value)
+					}
+				}
+				if nm != "" && ty != "" {
+					got[name] = append(got[name], [2]string{nm, ty})
+				}
+				return true
+			})
+			return false
+		})
+	}
+	var bad []string
+	res, _ := p.Types.Scope().Lookup("Result").(*types.TypeName)
+	goKind := map[string]string{"string": "string", "uint64": "uint64", "int64": "int64", "int32": "int32", "bytes": "[]byte"}
+	for tuple, w := range want {
+		g := got[tuple]
+		if len(g) != len(w) {
+			bad = append(bad, fmt.Sprintf("%s has %d components, expected %d", tuple, len(g), len(w)))
+			continue
+		}
+		for i := range w {
+			if g[i] != w[i] {
+				bad = append(bad, fmt.Sprintf("%s[%d] = (%s %s), expected (%s %s)", tuple, i, g[i][0], g[i][1], w[i][0], w[i][1]))
+			}
+			if res != nil {
+				st := res.Type().Underlying().(*types.Struct)
+				found := false
+				for k := 0; k < st.NumFields(); k++ {
+					if st.Field(k).Name() == g[i][0] {
+						found = true
+						if u := types.TypeString(st.Field(k).Type().Underlying(), nil); u != goKind[g[i][1]] {
+							bad = append(bad, fmt.Sprintf("%s.%s: ABI type %s but Go field type %s", tuple, g[i][0], g[i][1], u))
+						}
+					}
+				}
+				if !found {
+					bad = append(bad, fmt.Sprintf("%s names %s, which is not a field of types.Result", tuple, g[i][0]))
+				}
+			}
+		}
+	}
+	sort.Strings(bad)
+	return []*Obligation{groundObl(prop, "oracle-abi-layout", "full and partial ABI tuples of the oracle result list the documented fields in order, each naming a Result field of the matching type", len(bad) == 0, strings.Join(bad, "; "))}
+}
+
+func init() { groundChecks["oracle-abi-layout"] = groundOracleABI }
